@@ -867,6 +867,77 @@ def check_shared(case):
     return {'nt': True, 'cls': ['shared:' + case['route'], 'shared-wrap:' + wrap, 'shared:' + ('changed' if changed else 'same')]}
 
 
+# ---------------------------------------------------------------------------------------------
+# hierarchies holding the same labels with unlike index classes at one depth (IndexDate against a plain Index of the
+# same datetime64 labels), compared before and after their labels have been read (reading builds the per-depth arrays)
+
+@st.composite
+def depth_class_cases(draw):
+    wrap = draw(st.sampled_from(['ih', 'series', 'frame_columns', 'frame_index']))
+    realise = draw(st.sampled_from(['both', 'none', 'a', 'b', 'both']))
+    how = draw(st.sampled_from(['values', 'repr', 'iter', 'dtypes']))
+    cls_a = draw(st.sampled_from(['date', 'plain']))
+    cls_b = draw(st.sampled_from(['plain', 'date']))
+    depth_pos = draw(st.integers(0, 1))
+    outer = draw(st.lists(st.sampled_from(['a', 'b', 'c']), min_size=1, max_size=3, unique=True))
+    days = draw(st.lists(st.integers(0, 6), min_size=1, max_size=3, unique=True))
+    go = draw(st.integers(0, 4)) == 4
+    edit = draw(st.integers(0, 5)) == 5
+    return {'wrap': wrap, 'realise': realise, 'how': how, 'cls_a': cls_a, 'cls_b': cls_b, 'depth_pos': depth_pos, 'outer': outer, 'days': days, 'go': go, 'edit': edit,
+            'opts': {'compare_name': draw(st.booleans()), 'compare_dtype': draw(st.booleans()), 'compare_class': draw(st.booleans()), 'skipna': draw(st.booleans())}}
+
+
+def check_depth_class(case):
+    import itertools
+    dates = [np.datetime64('2020-01-01') + np.timedelta64(d, 'D') for d in sorted(case['days'])]
+    lists = [case['outer'], dates] if case['depth_pos'] == 1 else [dates, case['outer']]
+    labels = list(itertools.product(*lists))
+
+    def build(which, labs):
+        ctors = [sf.Index, sf.Index]
+        # (a plain Index given datetime64 labels holds them with the same dtype as IndexDate does)
+        ctors[case['depth_pos']] = sf.IndexDate if which == 'date' else (lambda x, **kw: sf.Index(np.array(list(x), dtype='M8[D]'), **kw))
+        cls = sf.IndexHierarchyGO if case['go'] else sf.IndexHierarchy
+        return cls.from_labels(labs, index_constructors=ctors)
+    lb = list(labels)
+    if case['edit'] and len(lb) >= 1:
+        t = list(lb[-1])
+        t[case['depth_pos']] = t[case['depth_pos']] + np.timedelta64(9, 'D')
+        lb[-1] = tuple(t)
+    a, b = lib(build, case['cls_a'], labels), lib(build, case['cls_b'], lb)
+    if isinstance(a, Raised) or isinstance(b, Raised):
+        raise Discard('construction rejected')
+    n = len(labels)
+    wrap = case['wrap']
+    if wrap == 'series':
+        a, b = sf.Series(np.arange(n), index=a), sf.Series(np.arange(n), index=b)
+    elif wrap == 'frame_columns':
+        a, b = sf.Frame(np.arange(n).reshape(1, n), columns=a), sf.Frame(np.arange(n).reshape(1, n), columns=b)
+    elif wrap == 'frame_index':
+        a, b = sf.Frame(np.arange(n).reshape(n, 1), index=a), sf.Frame(np.arange(n).reshape(n, 1), index=b)
+
+    def read(x):
+        ix = x if wrap == 'ih' else (x.index if wrap in ('series', 'frame_index') else x.columns)
+        {'values': lambda: ix.values, 'repr': lambda: repr(x), 'iter': lambda: list(ix), 'dtypes': lambda: ix.dtypes}[case['how']]()
+    if case['realise'] in ('a', 'both'):
+        read(a)
+    if case['realise'] in ('b', 'both'):
+        read(b)
+    opts = case['opts']
+    same_class = case['cls_a'] == case['cls_b']
+    want = (not case['edit']) and (same_class or not opts['compare_class'])
+    what = 'hierarchies with %s / %s at depth %d (%s), read before: %s (%s), wrapped as %s' % (
+        case['cls_a'], case['cls_b'], case['depth_pos'], 'one label changed' if case['edit'] else 'same labels', case['realise'], case['how'], wrap)
+    g_ab = _equals(a, b, opts, 'equals(a,b,%r)' % opts)
+    g_ba = _equals(b, a, opts, 'equals(b,a,%r)' % opts)
+    if g_ab != g_ba:
+        raise Failure('asymmetric', '%s: equals(a,b)=%s but equals(b,a)=%s opts=%r' % (what, g_ab, g_ba, opts))
+    if g_ab != want:
+        raise Failure('predicate', '%s: equals=%s expected %s; opts=%r' % (what, g_ab, want, opts))
+    return {'nt': not same_class or case['edit'], 'cls': ['depth-class:' + ('same' if same_class else 'differ'), 'depth-class-read:' + case['realise'], 'depth-class-wrap:' + wrap,
+                                                         'depth-class:compare_class=%s' % opts['compare_class']]}
+
+
 SUBS = [
     Sub('triples', cases(), check, quick=10000, thorough=48000, tag=tag,
         rule='equals vs reference predicate on recipes; symmetry; reflexivity on fresh copies; transitivity; HE ==/!=/hash/set'),
@@ -876,4 +947,6 @@ SUBS = [
         rule='hierarchies from from_product / from_index_items (shared Index objects) vs the same or one-label-different labels built by from_labels; both directions; Series / Frame / FrameHE wrappers'),
     Sub('dtype_layouts', dl_cases(), check_dl, quick=8000, thorough=48000,
         rule='equal (or one-cell-different) numbers under independently drawn per-column dtypes and independent block layouts on the two sides; equals in both directions vs per-column reference; FrameHE ==/hash'),
+    Sub('depth_class', depth_class_cases(), check_depth_class, quick=2400, thorough=16000,
+        rule='hierarchies with IndexDate or a plain Index of the same datetime64 labels at one depth, compared (every option set, both directions) before and after their labels were read'),
 ]
